@@ -126,6 +126,10 @@ func wrongs(t types.Type) [][2]string {
 	}
 	out := [][2]string{{w, d}}
 	dst := strings.SplitN(d, "<-", 2)[0]
+	switch t.Underlying().(type) {
+	case *types.Basic, *types.Struct, *types.Array:
+		out = append(out, [2]string{"nil", dst + "<-nil"})
+	}
 	if b, ok := t.Underlying().(*types.Basic); ok && b.Info()&types.IsNumeric != 0 {
 		out = append(out, [2]string{"wrongS", dst + "<-string-var"})
 		if b.Info()&types.IsInteger != 0 {
@@ -431,6 +435,22 @@ func mutantsOf(base, src string) []mutant {
 			}
 		case *ast.IfStmt:
 			add("non-bool-condition", "if", x.Cond, `"s"`)
+		case *ast.SwitchStmt:
+			// expression switch: a case expression that cannot be compared with the tag
+			if x.Tag != nil {
+				if tt := typeOf(x.Tag); tt != nil {
+					for _, cc := range x.Body.List {
+						cl, ok := cc.(*ast.CaseClause)
+						if !ok || len(cl.List) == 0 {
+							continue
+						}
+						for _, wd := range wrongs(tt) {
+							add("operand-type-mismatch", "switch-case:"+wd[1], cl.List[0], wd[0])
+						}
+						break
+					}
+				}
+			}
 		case *ast.CompositeLit:
 			t := typeOf(x)
 			if t == nil {
